@@ -18,6 +18,7 @@ def resolverSites : List (String × String × String) := [
   ("_populate_operation_id_cache", "resolve", ""),
   ("_populate_operation_id_cache", "resolution_scope", ""),
   ("in_scope", "push_scope", ""),
+  ("in_scope", "pop_scope", ""),
   ("_resolve_shared_parameters", "resolve_all", ""),
   ("_resolve_operation", "resolve_all", ""),
   ("_resolve_path_item", "resolution_scope", ""),
@@ -27,7 +28,6 @@ def resolverSites : List (String × String × String) := [
   ("get_operation_by_reference", "in_scope", ""),
   ("get_operation_by_reference", "resolve", ""),
   ("_validating_response", "in_scopes", ""),
-  ("in_scope", "pop_scope", ""),
   ("get_response_schema", "resolve_in_scope", ""),
   ("get_response_schema", "resolve_in_scope", ""),
   ("_resolve_until_no_references", "resolve", ""),
